@@ -59,7 +59,7 @@ mod rtcpx {
             RtcpPacket::Goodbye(b) => if b.sources.len() > 31 { Dom::MustRefuse("more than 31 sources") } else if b.reason.as_ref().map_or(false, |r| r.len() > 255) { Dom::Lossy("reason longer than 255 bytes is truncated") } else { Dom::Valid },
             RtcpPacket::GenericNack(n) => if n.lost_packets.is_empty() { Dom::MustRefuse("empty NACK") } else { Dom::Valid },
             RtcpPacket::RemoteBitrateEstimate(r) => if r.ssrcs.len() > 255 { Dom::MustRefuse("more than 255 REMB SSRCs") } else { Dom::Valid },
-            RtcpPacket::TransportWideCc(t) => if t.reference_time_64ms >= 1 << 24 { Dom::Lossy("reference time is a 24-bit field") } else if t.payload.len() % 4 != 0 { Dom::Lossy("unaligned TWCC payload") } else { Dom::Valid },
+            RtcpPacket::TransportWideCc(t) => if t.reference_time_64ms >= 1 << 24 { Dom::Lossy("reference time is a 24-bit field") } else { Dom::Valid },
             _ => Dom::Valid,
         }
     }
@@ -120,21 +120,20 @@ mod rtcpx {
                 let back = impl_parse_rtcp(bytes);
                 let back = match back { Ok(Ok(b)) => b, other => return (Some(format!("parse(marshal xs) fails: {}", res_class(&other))), None) };
                 if back.len() != v.len() { return (Some(format!("parse(marshal xs) has {} packets, expected {}", back.len(), v.len())), None); }
-                let mut known = None;
+                let known = None;
                 for ((x, y), d) in v.iter().zip(back.iter()).zip(doms.iter()) {
                     match d {
                         Dom::Valid => if canon(x) != *y { return (Some(format!("parse(marshal [x]) != x for {}: sent {:?} got {:?}", kind_of(x), short(std::slice::from_ref(x)), short(std::slice::from_ref(y)))), None); },
-                        Dom::Lossy(w) => {
+                        Dom::Lossy(_w) => {
                             // documented lossy cases: check the specific expectation
                             match (x, y) {
                                 (RtcpPacket::Goodbye(a), RtcpPacket::Goodbye(b)) => {
                                     let (ra, rb) = (a.reason.as_ref().unwrap(), b.reason.as_ref().unwrap());
                                     if a.sources != b.sources || !ra.starts_with(rb.as_str()) || rb.len() > 255 || rb.len() + 4 <= 255.min(ra.len()) { return (Some(format!("BYE reason truncation is not a character-boundary prefix: {} -> {} bytes ending {:?}", ra.len(), rb.len(), rb.chars().last())), None); }
                                 }
-                                (RtcpPacket::TransportWideCc(a), RtcpPacket::TransportWideCc(b)) if *w == "unaligned TWCC payload" => {
-                                    let mut e = a.payload.clone(); while e.len() % 4 != 0 { e.push(0); }
-                                    if b.payload == e && a.sender_ssrc == b.sender_ssrc && a.media_ssrc == b.media_ssrc && a.base_sequence == b.base_sequence && a.packet_status_count == b.packet_status_count && a.reference_time_64ms == b.reference_time_64ms && a.feedback_packet_count == b.feedback_packet_count { known = Some("twcc_unaligned_payload".to_string()); }
-                                    else { return (Some("TWCC with unaligned payload: fields other than the zero-extension changed".into()), None); }
+                                (RtcpPacket::TransportWideCc(a), RtcpPacket::TransportWideCc(b)) => {
+                                    // only the 24-bit reference time may be masked
+                                    if a.payload != b.payload || a.sender_ssrc != b.sender_ssrc || a.media_ssrc != b.media_ssrc || a.base_sequence != b.base_sequence || a.packet_status_count != b.packet_status_count || a.feedback_packet_count != b.feedback_packet_count || b.reference_time_64ms != a.reference_time_64ms & 0xFF_FFFF { return (Some("TWCC fields other than the masked reference time changed".into()), None); }
                                 }
                                 (RtcpPacket::SenderReport(a), RtcpPacket::SenderReport(b)) => if a.report_blocks.iter().zip(b.report_blocks.iter()).any(|(p, q)| q.packets_lost != p.packets_lost.clamp(-(1 << 23), (1 << 23) - 1)) { return (Some("packets_lost not clamped to 24 bits".into()), None); },
                                 (RtcpPacket::ReceiverReport(a), RtcpPacket::ReceiverReport(b)) => if a.report_blocks.iter().zip(b.report_blocks.iter()).any(|(p, q)| q.packets_lost != p.packets_lost.clamp(-(1 << 23), (1 << 23) - 1)) { return (Some("packets_lost not clamped to 24 bits".into()), None); },
@@ -158,13 +157,13 @@ mod rtcpx {
             }
         }
     }
-    fn oracle_wire(raw: &[u8], r: &Result<Result<Vec<RtcpPacket>, RtpError>, String>) -> (Option<String>, Option<String>) {
+    fn oracle_wire(_raw: &[u8], r: &Result<Result<Vec<RtcpPacket>, RtpError>, String>) -> (Option<String>, Option<String>) {
         match r {
             Err(m) => (Some(format!("parse_rtcp_packets panicked: {}", m)), None),
             Ok(Err(_)) => (None, None),
             Ok(Ok(xs)) => {
-                let has_repl = |s: &str| s.contains('\u{FFFD}');
-                let lossy_text = xs.iter().any(|p| match p { RtcpPacket::SourceDescription(d) => d.chunks.iter().any(|c| c.items.iter().any(|i| has_repl(&i.text) || i.ty == 0)), RtcpPacket::Goodbye(b) => b.reason.as_ref().map_or(false, |r| has_repl(r)), _ => false });
+                // a text that decoded to more than 255 bytes (invalid UTF-8 expands to U+FFFD) cannot be sent again
+                let lossy_text = xs.iter().any(|p| match p { RtcpPacket::SourceDescription(d) => d.chunks.iter().any(|c| c.items.iter().any(|i| i.text.len() > 255)), RtcpPacket::Goodbye(b) => b.reason.as_ref().map_or(false, |r| r.len() > 255), _ => false });
                 // a feedback message without any FCI entry is accepted leniently but is not a well-formed packet
                 let empty_fci = xs.iter().any(|p| matches!(p, RtcpPacket::GenericNack(n) if n.lost_packets.is_empty()));
                 if lossy_text || empty_fci { return (None, None); }
@@ -174,13 +173,9 @@ mod rtcpx {
                         match impl_parse_rtcp(b) {
                             Ok(Ok(ys)) => {
                                 if ys.len() != xs.len() { return (Some("re-parsed packet count differs".into()), None); }
-                                let mut known = None;
+                                let known = None;
                                 for (x, y) in xs.iter().zip(ys.iter()) {
                                     if same_modulo_nack_order(x, y) { continue; }
-                                    if let (RtcpPacket::TransportWideCc(a), RtcpPacket::TransportWideCc(c)) = (x, y) {
-                                        let mut e = a.payload.clone(); while e.len() % 4 != 0 { e.push(0); }
-                                        if a.payload.len() % 4 != 0 && c.payload == e { known = Some("twcc_unaligned_payload".to_string()); continue; }
-                                    }
                                     return (Some(format!("parse(marshal(parse raw)) != parse raw for {}: {} vs {}", kind_of(x), short(std::slice::from_ref(x)), short(std::slice::from_ref(y)))), None);
                                 }
                                 (None, known)
@@ -1151,6 +1146,157 @@ mod nackx {
     }
 }
 
+// ------------------------------------------------------------------------------------------ sender-side NACK buffer and resend cooldown
+mod senderx {
+    use super::*;
+    use rustrtc::peer_connection::DefaultRtpSenderNackHandler;
+    use rustrtc::rtx::RtxSenderConfig;
+    use rustrtc::RtpSenderInterceptor;
+    use std::collections::{BTreeMap, BTreeSet};
+    use std::sync::atomic::Ordering;
+    use std::time::{Duration, Instant};
+
+    #[derive(Clone, Debug)]
+    pub enum SOp { Sent(RtpPacket), SetRtx(u32), Nack(Vec<u16>, u64) }
+
+    fn op_term(o: &SOp) -> String {
+        match o {
+            SOp::Sent(p) => format!("(SSent {})", pkt_term(p)),
+            SOp::SetRtx(s) => format!("(SSetRtx {})", s),
+            SOp::Nack(l, t) => format!("(SNack {} {})", zlist(l.iter().map(|x| *x as i128)), t),
+        }
+    }
+    fn op_json(o: &SOp) -> serde_json::Value {
+        match o {
+            SOp::Sent(p) => json!({"sent": {"seq": p.header.sequence_number, "ssrc": p.header.ssrc, "payload": hex(&p.payload)}}),
+            SOp::SetRtx(s) => json!({"set_rtx": s}),
+            SOp::Nack(l, t) => json!({"nack": l, "at_us": t}),
+        }
+    }
+
+    fn sender_case(cx: &mut Ctx, kind: &str, max: usize, ops: &[SOp]) {
+        let h = DefaultRtpSenderNackHandler::new(max);
+        let addr: std::net::SocketAddr = "127.0.0.1:5004".parse().unwrap();
+        let t0 = Instant::now();
+        let eff_max = max.max(1);
+        let mut obs: Vec<(usize, Vec<RtpPacket>, u64)> = vec![];
+        let mut fail: Option<String> = None;
+        // oracle bookkeeping, from the documented behaviour only
+        let mut sent: Vec<RtpPacket> = vec![];            // packets that went into the buffer, in order
+        let mut rtx: u32 = 0;
+        let mut last_resend: BTreeMap<u16, u64> = BTreeMap::new();
+        let mut prev_supp = 0u64;
+        let cooldown_us = 25_000u64;
+        // Instant is monotonic in production; with a clock that went backwards the pruning of the cooldown map may
+        // legitimately forget an entry, so the cooldown / completeness expectations are only evaluated on monotonic histories
+        let mut mono = true;
+        let mut last_t = 0u64;
+        for o in ops {
+            let mut out: Vec<RtpPacket> = vec![];
+            match o {
+                SOp::Sent(p) => {
+                    futures::executor::block_on(h.on_packet_sent(p, addr, addr));
+                    if !(rtx != 0 && p.header.ssrc == rtx) { sent.push(p.clone()); }
+                }
+                SOp::SetRtx(s) => { rtx = *s; h.set_rtx(if *s == 0 { None } else { Some(RtxSenderConfig { rtx_ssrc: *s, rtx_payload_type: 97 }) }); }
+                SOp::Nack(l, t) => {
+                    out = h.packets_for_nack(l, t0 + Duration::from_micros(*t));
+                    if *t < last_t { mono = false; }
+                    last_t = *t;
+                    let all_distinct = sent.iter().map(|p| p.header.sequence_number).collect::<BTreeSet<_>>().len() == sent.len();
+                    let mut seen = BTreeSet::new();
+                    for p in &out {
+                        let sq = p.header.sequence_number;
+                        if !l.contains(&sq) && fail.is_none() { fail = Some(format!("handed out seq {} that was not requested", sq)); }
+                        if !seen.insert(sq) && fail.is_none() { fail = Some(format!("seq {} handed out twice in one call", sq)); }
+                        match sent.iter().rev().find(|q| q.header.sequence_number == sq) {
+                            Some(q) => if q != p && fail.is_none() { fail = Some(format!("seq {}: not the most recently sent packet with that number", sq)); },
+                            None => if fail.is_none() { fail = Some(format!("seq {} was never sent", sq)); },
+                        }
+                        if let Some(prev) = last_resend.get(&sq) { if mono && t.saturating_sub(*prev) < cooldown_us && fail.is_none() { fail = Some(format!("seq {} resent {} us after the previous resend (cooldown 25 ms)", sq, t.saturating_sub(*prev))); } }
+                    }
+                    // completeness, when the history has no repeated sequence number: the last `max` sent packets are retrievable
+                    if all_distinct && mono && fail.is_none() {
+                        let window: Vec<&RtpPacket> = sent.iter().rev().take(eff_max).collect();
+                        for sq in l.iter().collect::<BTreeSet<_>>() {
+                            let cooling = last_resend.get(sq).map_or(false, |prev| t.saturating_sub(*prev) < cooldown_us);
+                            let buffered = window.iter().any(|p| p.header.sequence_number == *sq);
+                            let got = out.iter().any(|p| p.header.sequence_number == *sq);
+                            if buffered && !cooling && !got { fail = Some(format!("seq {} is among the last {} sent packets and not cooling, but was not handed out", sq, eff_max)); break; }
+                            if !buffered && got { fail = Some(format!("seq {} is older than the last {} sent packets but was handed out", sq, eff_max)); break; }
+                        }
+                    }
+                    for p in &out { last_resend.insert(p.header.sequence_number, *t); }
+                }
+            }
+            let cnt = h.buffered_packet_count();
+            let supp = h.retransmit_suppressed_count.load(Ordering::Relaxed);
+            if cnt > eff_max && fail.is_none() { fail = Some(format!("buffer holds {} packets, bound is {}", cnt, eff_max)); }
+            if supp < prev_supp && fail.is_none() { fail = Some("suppressed counter decreased".into()); }
+            prev_supp = supp;
+            obs.push((cnt, out, supp));
+        }
+        let resends: usize = obs.iter().map(|o| o.1.len()).sum();
+        cx.bump(&format!("sender.max.{}", max.min(9)));
+        cx.bump(if resends > 0 { "sender.resends.some" } else { "sender.resends.none" });
+        let term = format!("KSender {} {} {}", max, list_term(&ops.iter().map(op_term).collect::<Vec<_>>()),
+            list_term(&obs.iter().map(|(c, o, s)| format!("({}, {}, {})", c, list_term(&o.iter().map(pkt_term).collect::<Vec<_>>()), s)).collect::<Vec<_>>()));
+        cx.push(kind, term, json!({"op": "DefaultRtpSenderNackHandler", "max_size": max, "ops": ops.iter().map(op_json).collect::<Vec<_>>(),
+            "obs": obs.iter().map(|(c, o, s)| json!([c, o.iter().map(|p| p.header.sequence_number).collect::<Vec<_>>(), s])).collect::<Vec<_>>()}), fail, None, resends > 0, format!("SN{}{:?}", max, ops));
+    }
+
+    fn pk(seq: u16, ssrc: u32, b: u8) -> RtpPacket { RtpPacket::new(RtpHeader::new(96, seq, 0, ssrc), vec![b]) }
+
+    pub fn run(cx: &mut Ctx, r: &mut Rng, thorough: bool) {
+        // the two unit tests of the repository
+        let mut ops: Vec<SOp> = (1u16..=10).map(|s| SOp::Sent(pk(s, 42, s as u8))).collect();
+        ops.push(SOp::Nack(vec![7, 8, 9, 10], 0)); ops.push(SOp::Nack(vec![1, 2, 3, 4, 5, 6], 0));
+        sender_case(cx, "corpus", 4, &ops);
+        sender_case(cx, "corpus", 8, &[SOp::Sent(pk(50, 7, 1)), SOp::Nack(vec![50, 50], 0), SOp::Nack(vec![50], 5_000), SOp::Nack(vec![50], 26_000)]);
+        // boundaries of the cooldown, clock going backwards, re-sent sequence number, RTX guard, size 0, pruning of the cooldown map
+        sender_case(cx, "corpus", 2, &[SOp::Sent(pk(1, 7, 1)), SOp::Nack(vec![1], 100_000), SOp::Nack(vec![1], 124_999), SOp::Nack(vec![1], 125_000), SOp::Nack(vec![1], 90_000), SOp::Nack(vec![1], 150_000)]);
+        sender_case(cx, "corpus", 2, &[SOp::Sent(pk(1, 7, 1)), SOp::Sent(pk(2, 7, 2)), SOp::Sent(pk(1, 7, 9)), SOp::Nack(vec![1, 2], 0), SOp::Sent(pk(3, 7, 3)), SOp::Nack(vec![1, 2, 3], 30_000)]);
+        sender_case(cx, "corpus", 3, &[SOp::SetRtx(99), SOp::Sent(pk(1, 99, 1)), SOp::Sent(pk(2, 7, 2)), SOp::Nack(vec![1, 2], 0), SOp::SetRtx(0), SOp::Sent(pk(3, 99, 3)), SOp::Nack(vec![3], 1)]);
+        sender_case(cx, "corpus", 0, &[SOp::Sent(pk(5, 7, 1)), SOp::Sent(pk(6, 7, 2)), SOp::Nack(vec![5, 6], 0)]);
+        let mut ops: Vec<SOp> = (0u16..6).map(|s| SOp::Sent(pk(65533u16.wrapping_add(s), 7, s as u8))).collect();
+        for (i, s) in [65533u16, 65534, 65535, 0, 1, 2].iter().enumerate() { ops.push(SOp::Nack(vec![*s], 1000 * i as u64)); }
+        ops.push(SOp::Nack(vec![0, 1, 2], 60_000));
+        sender_case(cx, "corpus", 1, &ops);
+        sender_case(cx, "corpus", 6, &ops);
+        // generated histories
+        let n = if thorough { 4000 } else { 320 };
+        for _ in 0..n {
+            let max = *r.pick(&[0usize, 1, 1, 2, 3, 4, 8]);
+            let ssrc = 7u32;
+            let mut seq = if r.chance(1, 4) { 65530 + r.below(6) as u16 } else { pick_u16(r) };
+            let mut now = r.below(1000);
+            let mut rtx = 0u32;
+            let mut recent_sent: Vec<u16> = vec![];
+            let mut ops = vec![];
+            let mut b = 0u8;
+            for _ in 0..r.range(4, 28) {
+                match r.below(10) {
+                    0..=4 => {
+                        if r.chance(1, 12) && !recent_sent.is_empty() { seq = *r.pick(&recent_sent); } else { seq = seq.wrapping_add(1); }
+                        b = b.wrapping_add(1);
+                        let s = if rtx != 0 && r.chance(1, 5) { rtx } else { ssrc };
+                        ops.push(SOp::Sent(pk(seq, s, b)));
+                        recent_sent.push(seq);
+                    }
+                    5 if r.chance(1, 3) => { rtx = if rtx == 0 { 99 } else { 0 }; ops.push(SOp::SetRtx(rtx)); }
+                    _ => {
+                        now = match r.below(8) { 0 => now, 1 => now + 5_000, 2 => now + 24_999, 3 => now + 25_000, 4 => now + 25_001, 5 => now.saturating_sub(r.below(30_000)), _ => now + r.below(60_000) };
+                        let k = r.range(1, 5);
+                        let l: Vec<u16> = (0..k).map(|_| if !recent_sent.is_empty() && r.chance(5, 6) { let i = recent_sent.len() - 1 - r.below(recent_sent.len().min(10) as u64) as usize; recent_sent[i] } else { pick_u16(r) }).collect();
+                        ops.push(SOp::Nack(l, now));
+                    }
+                }
+            }
+            sender_case(cx, "random", max, &ops);
+        }
+    }
+}
+
 fn main() {
     let args = parse_args();
     if std::env::var("C15_DEBUG").is_err() { silence_panics(); }
@@ -1160,6 +1306,7 @@ fn main() {
     run_rtp(&mut cx, &mut r, thorough);
     run_ext(&mut cx, &mut r, thorough);
     nackx::run(&mut cx, &mut r, thorough);
+    senderx::run(&mut cx, &mut r, thorough);
     rtcpx::run(&mut cx, &mut r, thorough);
     let stats = cx.stats.clone();
     cx.out.finish(json!({"generator": stats}));
